@@ -94,7 +94,7 @@ func advances(n int, res time.Duration) []time.Duration {
 }
 
 func configs(tier string) []config {
-	ns := []int{1, 2, 3, 5, 10}
+	ns := []int{1, 2, 3, 5, 10, 16} // 16: more buckets than the package's default of 10
 	rs := []time.Duration{time.Second, 1500 * time.Millisecond, 2 * time.Second, 2500 * time.Millisecond,
 		3 * time.Second, 7 * time.Second, 10 * time.Second, 60 * time.Second}
 	t0 := clock.Date(2012, 3, 4, 5, 6, 7, 0, clock.UTC)
@@ -274,7 +274,7 @@ func Run(tier string, sh lib.Shard, rep *lib.Report) {
 	rep.Bounds["counter_history_depth"] = depth
 	rep.Bounds["ratio_history_depth"] = rdepth
 	rep.Bounds["alphabet_counter"] = "Inc(1) Count Append(other counter holding 2) Clone Reset Advance{r/3,r/2,r,3r/2,(N-1)r,Nr,(N+1)r,2Nr+r/2}; ratio: IncA IncB Ratio Reset Advance{...}"
-	rep.Bounds["configurations"] = "N in {1,2,3,5,10} x r in {1s,1.5s,2s,2.5s,3s,7s,10s,60s} x 4 clock phases"
+	rep.Bounds["configurations"] = "N in {1,2,3,5,10,16} x r in {1s,1.5s,2s,2.5s,3s,7s,10s,60s} x 4 clock phases"
 	rep.Rule = "breadth-first search over all operation histories up to the depth bound on the real counter; state key = reflective dump of the counter + absolute instant + reference increments still inside N*r (exact key: merges only identical futures); a state is non-trivial when the reference window holds at least one increment"
 	rep.Assume("A2: one API call observes one instant of the frozen clock")
 	rep.Require("states_with_recent_increments", "states_with_boundary_latitude", "states_after_everything_aged_out", "ratio_states_nonempty_window", "ratio_states_empty_window", "prepared_state_searches")
